@@ -53,10 +53,11 @@ impl Spec {
 }
 
 /// arbitrary specification: labels are arbitrary symbolic intervals (may overlap), targets and defaults symbolic
-fn any_spec(n: usize, kk: usize) -> Spec {
+fn any_spec(n: usize, kks: &[usize]) -> Spec {
     let mut sp = Spec::empty(n);
     let mut s = 0;
     while s < n {
+        let kk = kks[s];
         sp.k[s] = kk;
         let mut j = 0;
         while j < kk {
@@ -113,12 +114,12 @@ pub fn complete_spec(n: usize, kk: &[usize]) -> Spec {
 }
 
 // ---------------------------------------------------------------------------------------------
-// C13a: arbitrary call sequences.  params: 0 = number of states, 1 = transitions per state
+// C13a: arbitrary call sequences.  params: 0 = number of states, 1..4 = transitions per state
 #[no_mangle]
 pub extern "C" fn vh_c13_any() {
     let n = param(0) as usize;
-    let kk = param(1) as usize;
-    let sp = any_spec(n, kk);
+    let kks = [param(1) as usize, param(2) as usize, param(3) as usize, param(4) as usize];
+    let sp = any_spec(n, &kks);
     let c = any_char(); // free witness character: the solver searches for a conflicting / uncovered one
     let (b, r) = sp.build();
     match r {
@@ -543,6 +544,10 @@ pub extern "C" fn vh_c14_built() {
     let len = param(5) as usize;
     let what = param(6);
     let sp = complete_spec(n, &kk);
+    if param(7) == 1 {
+        // two states whose single labels jointly tile the alphabet: [0,x] in state 0, [x+1,MAX] in state 1
+        assume(sp.lab[0][0].0 == 0 && sp.lab[1][0].0 == sp.lab[0][0].1.wrapping_add(1) && sp.lab[1][0].1 == MAXC);
+    }
     let x = any_char();
     let y = any_char();
     let mut w: Vec<u32> = Vec::new();
@@ -568,6 +573,16 @@ pub extern "C" fn vh_c14_built() {
                 check_minimized(&m1, &m2);
                 check_structure(&m2, x, y);
                 check(m2.accepts(&ws) == m1.accepts(&ws), 61);
+            } else if what == 4 {
+                // minimize, then prune: the pruned automaton is the reachable part of the minimized one
+                let mut ma = m1;
+                ma.minimize();
+                m2.minimize();
+                m2.remove_unreachable_states();
+                check_pruned(&ma, &m2);
+                check_structure(&m2, x, y);
+                check(m2.accepts(&ws) == ma.accepts(&ws), 64);
+                check(m2.initial_state().id() < m2.num_states(), 65);
             } else {
                 // pruning then minimizing gives the canonical minimal DFA: as many states as Nerode classes of reachable states
                 let mut m0 = m1;
